@@ -231,7 +231,8 @@ theorem xRange_inv2 (a b : Nat) :
   have hu : (finalV [a, b]).isUnstable = false := rfl
   have hp : (finalV [a, b]).isPostrelease = false := rfl
   have hs : (finalV [a, b]).isStable = true := rfl
-  simp only [makeXConstraintRange, hp, hs, finalV_nextStable2, if_true, Bool.false_eq_true, if_false]
+  have hdv : (finalV [a, b]).isDevrelease = false := rfl
+  simp only [makeXConstraintRange, hdv, hp, hs, finalV_nextStable2, if_true, Bool.false_eq_true, if_false]
   simp [VC.difference, VC.any, RC.difference, RC.rngDifferenceRng, RC.allowsAny, VRange.isStrictlyLower, VRange.isStrictlyHigher,
     VRange.allowedMax, VRange.allowedMin, VRange.any, VRange.allowsLower, VRange.allowsHigher, optVerEq, bind, Except.bind,
     pure, Except.pure, hu]
